@@ -2,6 +2,13 @@
 //! borsh, bstr) on boundary values and malformed streams, and compares every outcome with
 //! (a) the compiled Lean model (`codec_driver`: `borsh_de`, `borsh_ser`, `visit`, `ser`, `bstr`,
 //! `rows`) and (b) the std oracle (`Vec<u8>`, `String`, `OsString`, `PathBuf` on the same input).
+//! Round-2 adversaries: borsh through readers/writers that legally transfer fewer bytes than asked
+//! (chunks of 1/2/3/7, `Interrupted`, an over-reporting reader, partial writers, too-small
+//! buffers) on the tuple `(T, u32, T)` with the `Vec<u8>`/`String` twin through the same
+//! adversary; `deserialize_in_place` over pre-filled slots (longer / equal / shorter, owned /
+//! borrowed) with the std twin and the fresh-`deserialize` rule; every serde data-model shape
+//! through `serde::de::value::*Deserializer`; a raw-bytes monitor (`verif_bytes()`,
+//! `verif_owner_info()`: owner length <= capacity, view inside the block, UTF-8) on every result.
 //! A counting global allocator records the largest single allocation request of each call;
 //! the monitor checks it against the model's bound `4096 + 2 * input length` (+ slack).
 //!
@@ -255,7 +262,55 @@ enum Case {
     JsonDe { kind: K, be: Be, data: Vec<u8> },
     JsonBorrow { kind: K, be: Be, data: Vec<u8> },
     Tokens { kind: K, be: Be, data: Vec<u8> },
+    /// Round-2 adversaries (see `ExtOp`): `arg` is the adversary / token kind / shape name,
+    /// `old` the previous content of the slot for the in-place operations.
+    Ext {
+        op: ExtOp,
+        kind: K,
+        borrowing: bool,
+        be: Be,
+        arg: String,
+        hint: Option<usize>,
+        old: Vec<u8>,
+        old_borrowed: bool,
+        data: Vec<u8>,
+    },
 }
+
+/// * `BorshIoDe`  — the tuple `(T, u32, T)` read through an adversarial `borsh::io::Read`;
+/// * `BorshIoSer` — the same tuple written through an adversarial `borsh::io::Write`;
+/// * `InPlace`    — `Deserialize::deserialize_in_place` with a one-call deserializer over a
+///                  pre-filled slot;
+/// * `JsonInPlace`— the same with serde_json;
+/// * `Shape`      — every serde data-model shape through `serde::de::value::*Deserializer`.
+#[derive(Clone, Copy, Debug, PartialEq, Eq)]
+enum ExtOp {
+    BorshIoDe,
+    BorshIoSer,
+    InPlace,
+    JsonInPlace,
+    Shape,
+}
+
+impl ExtOp {
+    fn name(self) -> &'static str {
+        match self {
+            ExtOp::BorshIoDe => "borsh_io_de",
+            ExtOp::BorshIoSer => "borsh_io_ser",
+            ExtOp::InPlace => "in_place",
+            ExtOp::JsonInPlace => "json_in_place",
+            ExtOp::Shape => "shape",
+        }
+    }
+}
+
+const READ_ADVS: [&str; 7] = ["chunk1", "chunk2", "chunk3", "chunk7", "intr1", "intr3", "over"];
+const WRITE_ADVS: [&str; 8] = ["accept1", "accept2", "accept5", "accept8", "intr3", "fixed_short1", "fixed3", "slice_short1"];
+const SHAPES: [&str; 27] = [
+    "bool", "i8", "i16", "i32", "i64", "i128", "u8", "u16", "u32", "u64", "u128", "f32", "f64", "char", "unit",
+    "str", "borrowed_str", "string", "cow_str", "bytes", "borrowed_bytes",
+    "seq_u8", "seq_u16", "seq_str", "seq_empty", "map", "map_empty",
+];
 
 const BSTR_SRCS: [&str; 4] = ["bstr_ref", "bstring", "cow_borrowed", "cow_owned"];
 
@@ -274,7 +329,28 @@ impl Case {
             Case::JsonDe { kind, be, data } => format!("json_de {} {} {}", kind.name(), be.name(), hex(data)),
             Case::JsonBorrow { kind, be, data } => format!("json_borrow {} {} {}", kind.name(), be.name(), hex(data)),
             Case::Tokens { kind, be, data } => format!("tokens {} {} {}", kind.name(), be.name(), hex(data)),
+            Case::Ext { op, kind, borrowing, be, arg, hint, old, old_borrowed, data } => {
+                let ob = if *old_borrowed { "bor" } else { "own" };
+                match op {
+                    ExtOp::BorshIoDe | ExtOp::BorshIoSer => {
+                        format!("{} {} {} {arg} {}", op.name(), kind.name(), be.name(), hex(data))
+                    }
+                    ExtOp::InPlace => {
+                        let h = hint.map(|h| format!(" {h}")).unwrap_or_default();
+                        format!("in_place {} {} {arg} {ob} {} {}{h}", kind.name(), be.name(), hex(old), hex(data))
+                    }
+                    ExtOp::JsonInPlace => format!("json_in_place {} {} {ob} {} {}", kind.name(), be.name(), hex(old), hex(data)),
+                    ExtOp::Shape => {
+                        let e = Entry { kind: *kind, borrowing: *borrowing };
+                        format!("shape {} {} {arg} {}", e.name(), be.name(), hex(data))
+                    }
+                }
+            }
         }
+    }
+
+    fn ext(op: ExtOp, kind: K, be: Be, arg: &str, data: Vec<u8>) -> Case {
+        Case::Ext { op, kind, borrowing: false, be, arg: arg.to_string(), hint: None, old: vec![], old_borrowed: false, data }
     }
 
     fn parse(line: &str) -> Option<Case> {
@@ -287,6 +363,61 @@ impl Case {
                     _ => return None,
                 };
                 Some(Case::Visit { entry: Entry::parse(en)?, be: Be::parse(be)?, tok: Tk::parse(tk)?, data: unhex(h)?, hint })
+            }
+            [op @ ("borsh_io_de" | "borsh_io_ser"), k, be, adv, h] => {
+                let (o, advs): (ExtOp, &[&str]) =
+                    if *op == "borsh_io_de" { (ExtOp::BorshIoDe, &READ_ADVS) } else { (ExtOp::BorshIoSer, &WRITE_ADVS) };
+                if !advs.contains(adv) {
+                    return None;
+                }
+                Some(Case::ext(o, K::parse(k)?, Be::parse(be)?, adv, unhex(h)?))
+            }
+            ["in_place", k, be, tk, ob, ho, h, rest @ ..] => {
+                let hint = match rest {
+                    [] => None,
+                    [n] => Some(n.parse().ok()?),
+                    _ => return None,
+                };
+                Tk::parse(tk)?;
+                Some(Case::Ext {
+                    op: ExtOp::InPlace,
+                    kind: K::parse(k)?,
+                    borrowing: false,
+                    be: Be::parse(be)?,
+                    arg: tk.to_string(),
+                    hint,
+                    old: unhex(ho)?,
+                    old_borrowed: *ob == "bor",
+                    data: unhex(h)?,
+                })
+            }
+            ["json_in_place", k, be, ob, ho, h] => Some(Case::Ext {
+                op: ExtOp::JsonInPlace,
+                kind: K::parse(k)?,
+                borrowing: false,
+                be: Be::parse(be)?,
+                arg: String::new(),
+                hint: None,
+                old: unhex(ho)?,
+                old_borrowed: *ob == "bor",
+                data: unhex(h)?,
+            }),
+            ["shape", en, be, sh, h] => {
+                let e = Entry::parse(en)?;
+                if !SHAPES.contains(sh) {
+                    return None;
+                }
+                Some(Case::Ext {
+                    op: ExtOp::Shape,
+                    kind: e.kind,
+                    borrowing: e.borrowing,
+                    be: Be::parse(be)?,
+                    arg: sh.to_string(),
+                    hint: None,
+                    old: vec![],
+                    old_borrowed: false,
+                    data: unhex(h)?,
+                })
             }
             ["bstr", src, k, be, h] => {
                 let src = BSTR_SRCS.iter().copied().find(|s| s == src)?;
@@ -321,6 +452,18 @@ impl Case {
                 format!("visit {} {} {} {h}", entry.name(), be.name(), tok.name())
             }
             Case::Bstr { src, kind, be, .. } => format!("bstr {src} {} {}", kind.name(), be.name()),
+            Case::Ext { op, kind, borrowing, be, arg, old, old_borrowed, data, .. } => {
+                let rel = match op {
+                    ExtOp::InPlace | ExtOp::JsonInPlace => match old.len().cmp(&data.len()) {
+                        _ if *op == ExtOp::JsonInPlace => len_class(old.len()),
+                        std::cmp::Ordering::Less => "old-shorter",
+                        std::cmp::Ordering::Equal => "old-equal",
+                        std::cmp::Ordering::Greater => "old-longer",
+                    },
+                    _ => "",
+                };
+                format!("{} {} {} {} {arg} {rel} {}", op.name(), kind.name(), borrowing, be.name(), old_borrowed)
+            }
             Case::BorshDe { kind, be, .. }
             | Case::BorshSer { kind, be, .. }
             | Case::Ser { kind, be, .. }
@@ -342,6 +485,7 @@ impl Case {
             Case::JsonDe { .. } => "json_de",
             Case::JsonBorrow { .. } => "json_borrow",
             Case::Tokens { .. } => "tokens",
+            Case::Ext { op, .. } => op.name(),
         }
     }
 
@@ -355,7 +499,8 @@ impl Case {
             | Case::JsonRt { data, .. }
             | Case::JsonDe { data, .. }
             | Case::JsonBorrow { data, .. }
-            | Case::Tokens { data, .. } => data,
+            | Case::Tokens { data, .. }
+            | Case::Ext { data, .. } => data,
         }
     }
 
@@ -370,7 +515,8 @@ impl Case {
             | Case::JsonRt { data, .. }
             | Case::JsonDe { data, .. }
             | Case::JsonBorrow { data, .. }
-            | Case::Tokens { data, .. } => *data = d,
+            | Case::Tokens { data, .. }
+            | Case::Ext { data, .. } => *data = d,
         }
         c
     }
@@ -380,6 +526,11 @@ impl Case {
     fn needs_utf8(&self) -> bool {
         match self {
             Case::Visit { tok, .. } => tok.str_typed(),
+            Case::Ext { op: ExtOp::InPlace, arg, .. } => Tk::parse(arg).map_or(false, Tk::str_typed),
+            Case::Ext { op: ExtOp::BorshIoDe | ExtOp::BorshIoSer, kind, .. } => *kind == K::Str,
+            Case::Ext { op: ExtOp::Shape, arg, .. } => {
+                matches!(arg.as_str(), "str" | "borrowed_str" | "string" | "cow_str" | "char" | "seq_str" | "map")
+            }
             Case::BorshSer { kind, .. } | Case::Ser { kind, .. } | Case::JsonRt { kind, .. } | Case::Tokens { kind, .. } => {
                 *kind == K::Str
             }
@@ -397,6 +548,17 @@ impl Case {
             }
             Case::BorshSer { kind, .. } | Case::BorshDe { kind, .. } => matches!(kind, K::Byt | K::Str),
             Case::Bstr { kind, .. } => matches!(kind, K::Byt | K::Str),
+            Case::Ext { op, kind, arg, data, old, .. } => {
+                let old_ok = !matches!(kind, K::Str) || std::str::from_utf8(old).is_ok();
+                let one_char = |d: &[u8]| std::str::from_utf8(d).map_or(false, |s| s.chars().count() == 1);
+                old_ok
+                    && match op {
+                        ExtOp::BorshIoDe | ExtOp::BorshIoSer => matches!(kind, K::Byt | K::Str),
+                        ExtOp::InPlace => arg != "char" || one_char(data),
+                        ExtOp::Shape => arg != "char" || one_char(data),
+                        ExtOp::JsonInPlace => true,
+                    }
+            }
             _ => true,
         }
     }
@@ -412,6 +574,10 @@ impl Case {
                 }
             }
             Case::Visit { hint: Some(h), .. } => *h > (1 << 20),
+            // an over-reporting reader may push a defective implementation into undefined
+            // behaviour (or into std's debug precondition checks, which abort)
+            Case::Ext { op: ExtOp::BorshIoDe, arg, .. } => arg == "over",
+            Case::Ext { op: ExtOp::InPlace, hint: Some(h), .. } => *h > (1 << 20),
             _ => false,
         }
     }
@@ -753,14 +919,37 @@ fn probe<'de, D: Deserializer<'de>>(kind: K, d: D) -> Result<Probe, D::Error> {
 // The four Hip types behind one interface (for a fixed backend), and their std counterparts
 // ---------------------------------------------------------------------------------------------
 
+/// Memory monitor on the raw bytes of a value (hooks `verif_owner_info`): a heap-backed value's
+/// view must lie inside its owner's block and the owner's length must not exceed its capacity.
+/// Returns `""` or a `" !mem…"` marker.  Must be called BEFORE the content is read.
+fn mem_monitor<B: Backend>(raw: &HipByt<'_, B>) -> String {
+    if let Some((ptr, vlen, vcap, _inner, _count)) = raw.verif_owner_info() {
+        let p = raw.as_ptr() as usize;
+        if vlen > vcap {
+            return format!(" !mem:owner-len={vlen}>cap={vcap}");
+        }
+        if p < ptr || p + raw.len() > ptr + vcap {
+            return format!(" !mem:view-outside-block(len={},cap={vcap})", raw.len());
+        }
+    }
+    String::new()
+}
+
 trait Hip<'a>: Sized + Serialize + fmt::Debug + PartialEq {
     const KIND: K;
     /// owned value with the given content (must be UTF-8 for `HipStr`)
     fn make(v: &[u8]) -> Self;
+    /// value borrowing `v` (must be UTF-8 for `HipStr`)
+    fn make_borrowed(v: &'a [u8]) -> Self;
+    /// memory monitor on the raw bytes (`""` when fine)
+    fn monitor(&self) -> String;
+    /// the raw bytes (through `verif_bytes()`, never through `as_str()`); empty when the
+    /// memory monitor fires (the content must not be read then)
     fn content(&self) -> Vec<u8>;
     fn borrowed(&self) -> bool;
     fn ptr(&self) -> *const u8;
     fn de<D: Deserializer<'a>>(d: D) -> Result<Self, D::Error>;
+    fn de_in_place<D: Deserializer<'a>>(d: D, slot: &mut Self) -> Result<(), D::Error>;
     /// `borrow_deserialize` of the type's serde module (`None`: the type has none)
     fn de_borrow<D: Deserializer<'a>>(d: D) -> Option<Result<Self, D::Error>>;
 }
@@ -770,11 +959,20 @@ impl<'a, B: Backend> Hip<'a> for HipByt<'a, B> {
     fn de<D: Deserializer<'a>>(d: D) -> Result<Self, D::Error> {
         <Self as Deserialize<'a>>::deserialize(d)
     }
+    fn de_in_place<D: Deserializer<'a>>(d: D, slot: &mut Self) -> Result<(), D::Error> {
+        <Self as Deserialize<'a>>::deserialize_in_place(d, slot)
+    }
     fn make(v: &[u8]) -> Self {
         HipByt::from(v)
     }
+    fn make_borrowed(v: &'a [u8]) -> Self {
+        HipByt::borrowed(v)
+    }
+    fn monitor(&self) -> String {
+        mem_monitor(self)
+    }
     fn content(&self) -> Vec<u8> {
-        self.as_slice().to_vec()
+        if mem_monitor(self).is_empty() { self.as_slice().to_vec() } else { vec![] }
     }
     fn borrowed(&self) -> bool {
         self.is_borrowed()
@@ -792,17 +990,26 @@ impl<'a, B: Backend> Hip<'a> for HipStr<'a, B> {
     fn de<D: Deserializer<'a>>(d: D) -> Result<Self, D::Error> {
         <Self as Deserialize<'a>>::deserialize(d)
     }
+    fn de_in_place<D: Deserializer<'a>>(d: D, slot: &mut Self) -> Result<(), D::Error> {
+        <Self as Deserialize<'a>>::deserialize_in_place(d, slot)
+    }
     fn make(v: &[u8]) -> Self {
         HipStr::from(std::str::from_utf8(v).expect("utf8 value"))
     }
+    fn make_borrowed(v: &'a [u8]) -> Self {
+        HipStr::borrowed(std::str::from_utf8(v).expect("utf8 value"))
+    }
+    fn monitor(&self) -> String {
+        mem_monitor(self.verif_bytes())
+    }
     fn content(&self) -> Vec<u8> {
-        self.as_bytes().to_vec()
+        self.verif_bytes().content()
     }
     fn borrowed(&self) -> bool {
         self.is_borrowed()
     }
     fn ptr(&self) -> *const u8 {
-        self.as_ptr()
+        self.verif_bytes().as_ptr()
     }
     fn de_borrow<D: Deserializer<'a>>(d: D) -> Option<Result<Self, D::Error>> {
         Some(hipstr::string::serde::borrow_deserialize(d))
@@ -814,17 +1021,26 @@ impl<'a, B: Backend> Hip<'a> for HipOsStr<'a, B> {
     fn de<D: Deserializer<'a>>(d: D) -> Result<Self, D::Error> {
         <Self as Deserialize<'a>>::deserialize(d)
     }
+    fn de_in_place<D: Deserializer<'a>>(d: D, slot: &mut Self) -> Result<(), D::Error> {
+        <Self as Deserialize<'a>>::deserialize_in_place(d, slot)
+    }
     fn make(v: &[u8]) -> Self {
         HipOsStr::from(OsStr::from_bytes(v))
     }
+    fn make_borrowed(v: &'a [u8]) -> Self {
+        HipOsStr::borrowed(OsStr::from_bytes(v))
+    }
+    fn monitor(&self) -> String {
+        mem_monitor(self.verif_bytes())
+    }
     fn content(&self) -> Vec<u8> {
-        self.as_os_str().as_bytes().to_vec()
+        self.verif_bytes().content()
     }
     fn borrowed(&self) -> bool {
         self.is_borrowed()
     }
     fn ptr(&self) -> *const u8 {
-        self.as_os_str().as_bytes().as_ptr()
+        self.verif_bytes().as_ptr()
     }
     fn de_borrow<D: Deserializer<'a>>(_d: D) -> Option<Result<Self, D::Error>> {
         None
@@ -836,17 +1052,26 @@ impl<'a, B: Backend> Hip<'a> for HipPath<'a, B> {
     fn de<D: Deserializer<'a>>(d: D) -> Result<Self, D::Error> {
         <Self as Deserialize<'a>>::deserialize(d)
     }
+    fn de_in_place<D: Deserializer<'a>>(d: D, slot: &mut Self) -> Result<(), D::Error> {
+        <Self as Deserialize<'a>>::deserialize_in_place(d, slot)
+    }
     fn make(v: &[u8]) -> Self {
         HipPath::from(Path::new(OsStr::from_bytes(v)))
     }
+    fn make_borrowed(v: &'a [u8]) -> Self {
+        HipPath::borrowed(Path::new(OsStr::from_bytes(v)))
+    }
+    fn monitor(&self) -> String {
+        mem_monitor(self.verif_bytes())
+    }
     fn content(&self) -> Vec<u8> {
-        self.as_os_str().as_bytes().to_vec()
+        self.verif_bytes().content()
     }
     fn borrowed(&self) -> bool {
         self.is_borrowed()
     }
     fn ptr(&self) -> *const u8 {
-        self.as_os_str().as_bytes().as_ptr()
+        self.verif_bytes().as_ptr()
     }
     fn de_borrow<D: Deserializer<'a>>(d: D) -> Option<Result<Self, D::Error>> {
         Some(hipstr::path::serde::borrow_deserialize(d))
@@ -950,7 +1175,10 @@ fn borsh_de_impl<B: Backend>(kind: K, input: &[u8]) -> Obs {
             let (r, m) = measure(|| HipStr::<B>::deserialize_reader(&mut rd));
             (
                 match r {
-                    Ok(h) => format!("ok {} rest={}{}", hex(h.as_bytes()), hex(rd), utf8_monitor(K::Str, h.as_bytes())),
+                    Ok(h) => {
+                        let c = Hip::content(&h);
+                        format!("ok {} rest={}{}{}", hex(&c), hex(rd), utf8_monitor(K::Str, &c), Hip::monitor(&h))
+                    }
                     Err(e) => format!("err {}", borsh_err_class(&e)),
                 },
                 m,
@@ -960,7 +1188,7 @@ fn borsh_de_impl<B: Backend>(kind: K, input: &[u8]) -> Obs {
             let (r, m) = measure(|| HipByt::<B>::deserialize_reader(&mut rd));
             (
                 match r {
-                    Ok(h) => format!("ok {} rest={}", hex(h.as_slice()), hex(rd)),
+                    Ok(h) => format!("ok {} rest={}{}", hex(&Hip::content(&h)), hex(rd), Hip::monitor(&h)),
                     Err(e) => format!("err {}", borsh_err_class(&e)),
                 },
                 m,
@@ -1014,7 +1242,7 @@ fn visit_line<'a, H: Hip<'a>>(r: Result<H, OcErr>, data: &[u8]) -> String {
     match r {
         Ok(h) => {
             let c = h.content();
-            let mut s = format!("ok {} borrowed={}{}", hex(&c), h.borrowed() as u8, utf8_monitor(H::KIND, &c));
+            let mut s = format!("ok {} borrowed={}{}{}", hex(&c), h.borrowed() as u8, utf8_monitor(H::KIND, &c), h.monitor());
             if matches!(H::KIND, K::Path) && std::str::from_utf8(&c).is_err() {
                 s.push_str(" !utf8");
             }
@@ -1351,6 +1579,15 @@ fn tokens_impl<'a, H: Hip<'a> + DeserializeOwned>(v: &[u8]) -> Obs {
             for (name, toks) in streams {
                 run(name, &|| assert_de_tokens(&h, &toks));
             }
+            // like `String`/`PathBuf`, a sequence of `u8` is NOT a string
+            let seq = seq_tokens(v);
+            if catch_unwind(AssertUnwindSafe(|| assert_de_tokens(&h, &seq))).is_ok() {
+                fails.push("seq_accepted");
+            }
+            let twin = String::from_utf8(v.to_vec()).expect("utf8");
+            if catch_unwind(AssertUnwindSafe(|| assert_de_tokens(&twin, &seq))).is_ok() {
+                fails.push("std_seq_accepted");
+            }
         }
         K::Os => {
             let mut toks = vec![Token::NewtypeVariant { name: "OsString", variant: "Unix" }];
@@ -1362,6 +1599,375 @@ fn tokens_impl<'a, H: Hip<'a> + DeserializeOwned>(v: &[u8]) -> Obs {
     }
     let line = if fails.is_empty() { "ok".to_string() } else { format!("fail={}", fails.join(",")) };
     Obs { line, maxalloc: 0 }
+}
+
+// ---------------------------------------------------------------------------------------------
+// Round 2: borsh I/O adversaries
+// ---------------------------------------------------------------------------------------------
+
+/// A `borsh::io::Read` over a fixed stream that is legal but unhelpful:
+/// * `chunk<k>`: at most `k` bytes per call (never `Ok(0)` before the end);
+/// * `intr<k>` : every other call fails with `ErrorKind::Interrupted` (to be retried), the
+///               others deliver at most `k` bytes;
+/// * `over`    : fills the buffer but, for buffers of 16 bytes or more, REPORTS 8 bytes more
+///               than the buffer holds (std: callers must not rely on `n <= buf.len()` for
+///               memory safety).
+struct AdvReader<'a> {
+    data: &'a [u8],
+    pos: usize,
+    chunk: usize,
+    interrupt: bool,
+    over: bool,
+    calls: usize,
+}
+
+impl<'a> AdvReader<'a> {
+    fn new(adv: &str, data: &'a [u8]) -> AdvReader<'a> {
+        let num = |p: &str| adv.strip_prefix(p).and_then(|n| n.parse::<usize>().ok());
+        let (chunk, interrupt, over) = if let Some(k) = num("chunk") {
+            (k, false, false)
+        } else if let Some(k) = num("intr") {
+            (k, true, false)
+        } else {
+            (usize::MAX, false, adv == "over")
+        };
+        AdvReader { data, pos: 0, chunk, interrupt, over, calls: 0 }
+    }
+}
+
+impl borsh::io::Read for AdvReader<'_> {
+    fn read(&mut self, buf: &mut [u8]) -> borsh::io::Result<usize> {
+        self.calls += 1;
+        if self.interrupt && self.calls % 2 == 1 {
+            return Err(borsh::io::ErrorKind::Interrupted.into());
+        }
+        let n = buf.len().min(self.chunk).min(self.data.len() - self.pos);
+        buf[..n].copy_from_slice(&self.data[self.pos..self.pos + n]);
+        self.pos += n;
+        if self.over && buf.len() >= 16 && n == buf.len() {
+            return Ok(n + 8);
+        }
+        Ok(n)
+    }
+}
+
+/// A `borsh::io::Write` that accepts at most `k` bytes per call (`accept<k>`), interrupts every
+/// other call (`intr<k>`), or has a fixed capacity (`fixed…`: `Ok(0)` once full).
+struct AdvWriter {
+    out: Vec<u8>,
+    accept: usize,
+    interrupt: bool,
+    capacity: usize,
+    calls: usize,
+}
+
+impl borsh::io::Write for AdvWriter {
+    fn write(&mut self, buf: &[u8]) -> borsh::io::Result<usize> {
+        self.calls += 1;
+        if self.interrupt && self.calls % 2 == 1 {
+            return Err(borsh::io::ErrorKind::Interrupted.into());
+        }
+        let n = buf.len().min(self.accept).min(self.capacity - self.out.len());
+        self.out.extend_from_slice(&buf[..n]);
+        Ok(n)
+    }
+    fn flush(&mut self) -> borsh::io::Result<()> {
+        Ok(())
+    }
+}
+
+const IO_MARK: u32 = 0xDEAD_BEEF;
+
+/// Bytes of the tuple `(v, IO_MARK, v)` as std's `Vec<u8>`/`str` write it.
+fn io_stream(v: &[u8]) -> Vec<u8> {
+    let mut s = le32(v.len() as u32, v);
+    s.extend_from_slice(&IO_MARK.to_le_bytes());
+    s.extend_from_slice(&le32(v.len() as u32, v));
+    s
+}
+
+fn io_err_line(e: &borsh::io::Error, field: usize) -> String {
+    let k = match e.kind() {
+        borsh::io::ErrorKind::Interrupted => "interrupted",
+        borsh::io::ErrorKind::WriteZero => "write_zero",
+        borsh::io::ErrorKind::UnexpectedEof => "unexpected_eof",
+        _ => borsh_err_class(e),
+    };
+    format!("err {k} field={field}")
+}
+
+/// One field read through the adversary: its raw content and the monitor markers.
+type Field = (Vec<u8>, String);
+
+/// Reads `(T, u32, T)` through the adversary with `read_one`; formatting happens afterwards so
+/// that the measured allocations are the reader's own.
+fn io_de_with<'d>(
+    adv: &str,
+    stream: &'d [u8],
+    read_one: &mut dyn FnMut(&mut AdvReader<'d>) -> Result<Field, borsh::io::Error>,
+) -> (Result<(Field, u32, Field, usize), (usize, borsh::io::Error)>, usize) {
+    measure(|| {
+        let mut rd = AdvReader::new(adv, stream);
+        let a = read_one(&mut rd).map_err(|e| (0, e))?;
+        let m = u32::deserialize_reader(&mut rd).map_err(|e| (1, e))?;
+        let b = read_one(&mut rd).map_err(|e| (2, e))?;
+        Ok((a, m, b, stream.len() - rd.pos))
+    })
+}
+
+fn io_de_line(r: Result<(Field, u32, Field, usize), (usize, borsh::io::Error)>) -> String {
+    match r {
+        Ok((a, m, b, unread)) => format!("ok {}{} {m:08x} {}{} unread={unread}", hex(&a.0), a.1, hex(&b.0), b.1),
+        Err((f, e)) => io_err_line(&e, f),
+    }
+}
+
+fn borsh_io_de_impl<B: Backend>(kind: K, adv: &str, v: &[u8]) -> Obs {
+    let stream = io_stream(v);
+    let (r, maxalloc) = match kind {
+        K::Str => io_de_with(adv, &stream, &mut |r| {
+            HipStr::<B>::deserialize_reader(r).map(|h| {
+                let mon = Hip::monitor(&h);
+                let c = Hip::content(&h);
+                let marks = format!("{}{mon}", utf8_monitor(K::Str, &c));
+                (c, marks)
+            })
+        }),
+        _ => io_de_with(adv, &stream, &mut |r| {
+            HipByt::<B>::deserialize_reader(r).map(|h| {
+                let mon = Hip::monitor(&h);
+                (Hip::content(&h), mon)
+            })
+        }),
+    };
+    Obs { line: io_de_line(r), maxalloc }
+}
+
+/// The twin: `Vec<u8>`/`String` through the same adversary.  `Interrupted` is something
+/// `read_exact` retries but borsh's bulk `Vec<u8>` reader does not: for the `intr` adversaries
+/// the expectation is what the uninterrupted chunked reader delivers.
+fn borsh_io_de_std(kind: K, adv: &str, v: &[u8]) -> String {
+    let stream = io_stream(v);
+    let adv = if let Some(k) = adv.strip_prefix("intr") { format!("chunk{k}") } else { adv.to_string() };
+    let (r, _) = match kind {
+        K::Str => io_de_with(&adv, &stream, &mut |r| String::deserialize_reader(r).map(|s| (s.into_bytes(), String::new()))),
+        _ => io_de_with(&adv, &stream, &mut |r| Vec::<u8>::deserialize_reader(r).map(|s| (s, String::new()))),
+    };
+    io_de_line(r)
+}
+
+/// Serialises `(value, IO_MARK, value)` through the adversary; `ser_one(writer)` writes one value.
+fn io_ser_run<W: borsh::io::Write>(w: &mut W, ser_one: &dyn Fn(&mut W) -> borsh::io::Result<()>) -> Result<(), (usize, borsh::io::Error)> {
+    ser_one(w).map_err(|e| (0, e))?;
+    BorshSerialize::serialize(&IO_MARK, w).map_err(|e| (1, e))?;
+    ser_one(w).map_err(|e| (2, e))
+}
+
+fn io_ser_line(r: Result<(), (usize, borsh::io::Error)>, written: &[u8]) -> String {
+    match r {
+        Ok(()) => format!("ok {}", hex(written)),
+        Err((f, e)) => format!("{} written={}", io_err_line(&e, f), hex(written)),
+    }
+}
+
+/// Runs a serialisation of the tuple through the named write adversary.
+fn io_ser_adv(adv: &str, v_len: usize, ser_adv: &dyn Fn(&mut AdvWriter) -> borsh::io::Result<()>, ser_slice: &dyn Fn(&mut &mut [u8]) -> borsh::io::Result<()>) -> String {
+    let total = 2 * (4 + v_len) + 4;
+    let num = |p: &str| adv.strip_prefix(p).and_then(|n| n.parse::<usize>().ok());
+    if adv == "slice_short1" {
+        // a real `&mut [u8]` that is one byte too small
+        let mut buf = vec![0u8; total - 1];
+        let r = {
+            let mut w: &mut [u8] = &mut buf;
+            let r = io_ser_run(&mut w, ser_slice);
+            let left = w.len();
+            (r, left)
+        };
+        let used = buf.len() - r.1;
+        return io_ser_line(r.0, &buf[..used]);
+    }
+    let mut w = AdvWriter { out: vec![], accept: usize::MAX, interrupt: false, capacity: usize::MAX, calls: 0 };
+    if let Some(k) = num("accept") {
+        w.accept = k;
+    } else if let Some(k) = num("intr") {
+        w.accept = k;
+        w.interrupt = true;
+    } else if adv == "fixed_short1" {
+        w.capacity = total - 1;
+    } else if let Some(k) = num("fixed") {
+        w.capacity = k;
+    }
+    let r = io_ser_run(&mut w, ser_adv);
+    io_ser_line(r, &w.out)
+}
+
+fn borsh_io_ser_impl<B: Backend>(kind: K, adv: &str, v: &[u8]) -> Obs {
+    let line = match kind {
+        K::Str => {
+            let h = HipStr::<B>::from(std::str::from_utf8(v).expect("utf8 value"));
+            io_ser_adv(adv, v.len(), &|w| BorshSerialize::serialize(&h, w), &|w| BorshSerialize::serialize(&h, w))
+        }
+        _ => {
+            let h = HipByt::<B>::from(v);
+            io_ser_adv(adv, v.len(), &|w| BorshSerialize::serialize(&h, w), &|w| BorshSerialize::serialize(&h, w))
+        }
+    };
+    Obs { line, maxalloc: 0 }
+}
+
+fn borsh_io_ser_std(kind: K, adv: &str, v: &[u8]) -> String {
+    match kind {
+        K::Str => {
+            let s = std::str::from_utf8(v).expect("utf8 value");
+            io_ser_adv(adv, v.len(), &|w| BorshSerialize::serialize(s, w), &|w| BorshSerialize::serialize(s, w))
+        }
+        _ => {
+            let s = v.to_vec();
+            io_ser_adv(adv, v.len(), &|w| BorshSerialize::serialize(&s, w), &|w| BorshSerialize::serialize(&s, w))
+        }
+    }
+}
+
+// ---------------------------------------------------------------------------------------------
+// Round 2: deserialize_in_place
+// ---------------------------------------------------------------------------------------------
+
+fn in_place_line<'a, H: Hip<'a>, E>(r: Result<(), E>, slot: &H, class: impl Fn(&E) -> String) -> String {
+    match r {
+        Ok(()) => {
+            let mon = slot.monitor();
+            let c = slot.content();
+            let mut s = format!("ok {}{}{mon}", hex(&c), utf8_monitor(H::KIND, &c));
+            if matches!(H::KIND, K::Path) && std::str::from_utf8(&c).is_err() {
+                s.push_str(" !utf8");
+            }
+            s
+        }
+        Err(e) => format!("err {}", class(&e)),
+    }
+}
+
+fn in_place_impl<'a, H: Hip<'a>>(d: OneCall<'a>, old: &'a [u8], old_borrowed: bool) -> Obs {
+    let mut slot = if old_borrowed { H::make_borrowed(old) } else { H::make(old) };
+    let (r, maxalloc) = measure(|| H::de_in_place(d, &mut slot));
+    let mut line = in_place_line(r, &slot, |e: &OcErr| e.0.name().to_string());
+    // whatever happened, the slot must still be a sound value
+    if line.starts_with("err") {
+        line.push_str(&slot.monitor());
+        let c = slot.content();
+        line.push_str(utf8_monitor(H::KIND, &c));
+    }
+    Obs { line, maxalloc }
+}
+
+/// In-place on the std twin, pre-filled with the same old content.
+fn in_place_std(kind: K, d: OneCall, old: &[u8]) -> String {
+    fn run<'de, T: Deserialize<'de>>(d: OneCall<'de>, mut slot: T, content: impl Fn(&T) -> Vec<u8>) -> String {
+        match T::deserialize_in_place(d, &mut slot) {
+            Ok(()) => format!("ok {}", hex(&content(&slot))),
+            Err(e) => format!("err {}", e.0.name()),
+        }
+    }
+    match kind {
+        K::Byt => run(d, old.to_vec(), |v: &Vec<u8>| v.clone()),
+        K::Str => run(d, String::from_utf8(old.to_vec()).expect("utf8 old value"), |s: &String| s.as_bytes().to_vec()),
+        K::Os => run(d, OsString::from_vec(old.to_vec()), |s: &OsString| s.as_bytes().to_vec()),
+        K::Path => run(d, PathBuf::from(OsString::from_vec(old.to_vec())), |p: &PathBuf| p.as_os_str().as_bytes().to_vec()),
+    }
+}
+
+fn json_in_place_impl<'a, H: Hip<'a>>(text: &'a [u8], old: &'a [u8], old_borrowed: bool) -> Obs {
+    let mut slot = if old_borrowed { H::make_borrowed(old) } else { H::make(old) };
+    let (r, maxalloc) = measure(|| {
+        let mut d = serde_json::Deserializer::from_slice(text);
+        H::de_in_place(&mut d, &mut slot).and_then(|()| d.end())
+    });
+    let line = in_place_line(r, &slot, |_e: &serde_json::Error| String::new()).trim_end().to_string();
+    Obs { line, maxalloc }
+}
+
+fn json_in_place_std(kind: K, text: &[u8], old: &[u8]) -> String {
+    fn run<'de, T: Deserialize<'de>>(text: &'de [u8], mut slot: T, content: impl Fn(&T) -> Vec<u8>) -> String {
+        let mut d = serde_json::Deserializer::from_slice(text);
+        match T::deserialize_in_place(&mut d, &mut slot).and_then(|()| d.end()) {
+            Ok(()) => format!("ok {}", hex(&content(&slot))),
+            Err(_) => "err".into(),
+        }
+    }
+    match kind {
+        K::Byt => run(text, old.to_vec(), |v: &Vec<u8>| v.clone()),
+        K::Str => run(text, String::from_utf8(old.to_vec()).expect("utf8 old value"), |s: &String| s.as_bytes().to_vec()),
+        K::Os => run(text, OsString::from_vec(old.to_vec()), |s: &OsString| s.as_bytes().to_vec()),
+        K::Path => run(text, PathBuf::from(OsString::from_vec(old.to_vec())), |p: &PathBuf| p.as_os_str().as_bytes().to_vec()),
+    }
+}
+
+// ---------------------------------------------------------------------------------------------
+// Round 2: every data-model shape through serde's value deserializers
+// ---------------------------------------------------------------------------------------------
+
+/// Calls `f` with the `serde::de::value` deserializer of the named shape built from `data`.
+macro_rules! with_shape {
+    ($shape:expr, $data:expr, |$d:ident| $body:expr) => {{
+        use serde::de::value as v;
+        let data: &[u8] = $data;
+        let first = data.first().copied().unwrap_or(0);
+        let wide = u64::from_le_bytes({
+            let mut b = [0u8; 8];
+            for (i, x) in data.iter().take(8).enumerate() {
+                b[i] = *x;
+            }
+            b
+        });
+        let text = || std::str::from_utf8(data).expect("utf8 case");
+        match $shape {
+            "bool" => { let $d = v::BoolDeserializer::<OcErr>::new(first & 1 == 1); $body }
+            "i8" => { let $d = v::I8Deserializer::<OcErr>::new(first as i8); $body }
+            "i16" => { let $d = v::I16Deserializer::<OcErr>::new(wide as i16); $body }
+            "i32" => { let $d = v::I32Deserializer::<OcErr>::new(wide as i32); $body }
+            "i64" => { let $d = v::I64Deserializer::<OcErr>::new(wide as i64); $body }
+            "i128" => { let $d = v::I128Deserializer::<OcErr>::new(wide as i128); $body }
+            "u8" => { let $d = v::U8Deserializer::<OcErr>::new(first); $body }
+            "u16" => { let $d = v::U16Deserializer::<OcErr>::new(wide as u16); $body }
+            "u32" => { let $d = v::U32Deserializer::<OcErr>::new(wide as u32); $body }
+            "u64" => { let $d = v::U64Deserializer::<OcErr>::new(wide); $body }
+            "u128" => { let $d = v::U128Deserializer::<OcErr>::new(wide as u128); $body }
+            "f32" => { let $d = v::F32Deserializer::<OcErr>::new(wide as f32); $body }
+            "f64" => { let $d = v::F64Deserializer::<OcErr>::new(wide as f64); $body }
+            "char" => { let $d = v::CharDeserializer::<OcErr>::new(text().chars().next().expect("one char")); $body }
+            "unit" => { let $d = v::UnitDeserializer::<OcErr>::new(); $body }
+            "str" => { let tmp = text().to_string(); let $d = v::StrDeserializer::<OcErr>::new(&tmp); $body }
+            "borrowed_str" => { let $d = v::BorrowedStrDeserializer::<OcErr>::new(text()); $body }
+            "string" => { let $d = v::StringDeserializer::<OcErr>::new(text().to_string()); $body }
+            "cow_str" => {
+                let $d: v::CowStrDeserializer<OcErr> = std::borrow::Cow::Owned::<str>(text().to_string()).into_deserializer();
+                $body
+            }
+            "bytes" => { let tmp = data.to_vec(); let $d = v::BytesDeserializer::<OcErr>::new(&tmp); $body }
+            "borrowed_bytes" => { let $d = v::BorrowedBytesDeserializer::<OcErr>::new(data); $body }
+            "seq_u8" => { let $d = v::SeqDeserializer::<_, OcErr>::new(data.iter().copied()); $body }
+            "seq_u16" => { let $d = v::SeqDeserializer::<_, OcErr>::new(data.iter().map(|b| 256u16 + *b as u16)); $body }
+            "seq_str" => { let t = text(); let $d = v::SeqDeserializer::<_, OcErr>::new([t, t].into_iter()); $body }
+            "seq_empty" => { let $d = v::SeqDeserializer::<_, OcErr>::new(std::iter::empty::<u8>()); $body }
+            "map" => { let t = text(); let $d = v::MapDeserializer::<_, OcErr>::new([(t, first)].into_iter()); $body }
+            _ => { let $d = v::MapDeserializer::<_, OcErr>::new(std::iter::empty::<(u8, u8)>()); $body }
+        }
+    }};
+}
+
+fn shape_impl<'a, H: Hip<'a>>(borrowing: bool, shape: &str, data: &'a [u8]) -> Obs {
+    let (r, maxalloc): (Result<H, OcErr>, usize) =
+        with_shape!(shape, data, |d| measure(|| if borrowing { H::de_borrow(d).expect("entry exists") } else { H::de(d) }));
+    // `borrowed=` is decided by the oracle only for the shapes that carry 'de data
+    Obs { line: visit_line::<H>(r, data), maxalloc }
+}
+
+fn shape_std(kind: K, shape: &str, data: &[u8]) -> String {
+    let r: Result<StdVal, OcErr> = with_shape!(shape, data, |d| StdVal::de(kind, d));
+    match r {
+        Ok(v) => format!("ok {}", hex(&v.content())),
+        Err(e) => format!("err {}", e.0.name()),
+    }
 }
 
 // ---------------------------------------------------------------------------------------------
@@ -1385,6 +1991,16 @@ fn run_impl_raw(case: &Case) -> Obs {
             dispatch!(*kind, *be, json_borrow_impl(data, value.as_ref()))
         }
         Case::Tokens { kind, be, data } => dispatch!(*kind, *be, tokens_impl(data)),
+        Case::Ext { op, kind, borrowing, be, arg, hint, old, old_borrowed, data } => match op {
+            ExtOp::BorshIoDe => with_backend!(*be, borsh_io_de_impl(*kind, arg, data)),
+            ExtOp::BorshIoSer => with_backend!(*be, borsh_io_ser_impl(*kind, arg, data)),
+            ExtOp::InPlace => {
+                let d = OneCall { tok: Tk::parse(arg).expect("token kind"), data, hint: *hint };
+                dispatch!(*kind, *be, in_place_impl(d, old, *old_borrowed))
+            }
+            ExtOp::JsonInPlace => dispatch!(*kind, *be, json_in_place_impl(data, old, *old_borrowed)),
+            ExtOp::Shape => dispatch!(*kind, *be, shape_impl(*borrowing, arg, data)),
+        },
     }
 }
 
@@ -1403,25 +2019,30 @@ fn field(line: &str, name: &str) -> Option<usize> {
     line.split(' ').find_map(|w| w.strip_prefix(name)).and_then(|v| v.parse().ok())
 }
 
+/// What a fresh `deserialize`/`borrow_deserialize` must answer to one visitor call: the std twin's
+/// answer, extended for `HipByt` by its documented acceptance of byte strings and strings, plus
+/// `borrowed=` (1 iff a borrowing entry point is handed `'de` data).
+fn visit_expect(entry: Entry, tok: Tk, data: &[u8], hint: Option<usize>) -> String {
+    let d = OneCall { tok, data, hint };
+    let mut std = visit_std(entry.kind, d);
+    if entry.kind == K::Byt && std.starts_with("err") && !matches!(tok, Tk::Seq | Tk::SeqBad | Tk::Other) {
+        // documented extension over Vec<u8>: byte strings and strings are accepted
+        std = format!("ok {}", hex(data));
+    }
+    if std.starts_with("ok") {
+        let b = entry.borrowing && matches!(tok, Tk::BorrowedStr | Tk::BorrowedBytes);
+        std.push_str(&format!(" borrowed={}", b as u8));
+    }
+    std
+}
+
 /// The std-side expectation for the implementation's line (with `borrowed=` where the format
 /// decides it).
 fn run_oracle(case: &Case) -> String {
     match case {
         Case::BorshDe { kind, data, .. } => borsh_de_std(*kind, data),
         Case::BorshSer { kind, data, .. } => borsh_ser_std(*kind, data),
-        Case::Visit { entry, tok, data, hint, .. } => {
-            let d = OneCall { tok: *tok, data, hint: *hint };
-            let mut std = visit_std(entry.kind, d);
-            if entry.kind == K::Byt && std.starts_with("err") && !matches!(tok, Tk::Seq | Tk::SeqBad | Tk::Other) {
-                // documented extension over Vec<u8>: byte strings and strings are accepted
-                std = format!("ok {}", hex(data));
-            }
-            if std.starts_with("ok") {
-                let b = entry.borrowing && matches!(tok, Tk::BorrowedStr | Tk::BorrowedBytes);
-                std.push_str(&format!(" borrowed={}", b as u8));
-            }
-            std
-        }
+        Case::Visit { entry, tok, data, hint, .. } => visit_expect(*entry, *tok, data, *hint),
         // HipByt deliberately uses the byte-string call (like serde_bytes), not Vec<u8>'s sequence
         Case::Ser { kind: K::Byt, data, .. } => format!("bytes {}", hex(data)),
         Case::Ser { kind, data, .. } => ser_std(*kind, data),
@@ -1445,6 +2066,52 @@ fn run_oracle(case: &Case) -> String {
                 "ok".into()
             }
         }
+        Case::Ext { op, kind, borrowing, arg, hint, old, data, .. } => match op {
+            ExtOp::BorshIoDe => borsh_io_de_std(*kind, arg, data),
+            ExtOp::BorshIoSer => borsh_io_ser_std(*kind, arg, data),
+            ExtOp::InPlace => {
+                // in place must leave what a fresh `deserialize` returns; the std twin, filled
+                // with the same old value, must agree whenever it accepts
+                let tok = Tk::parse(arg).expect("token kind");
+                let fresh = strip_field(&visit_expect(Entry { kind: *kind, borrowing: false }, tok, data, *hint), "borrowed=");
+                let twin = in_place_std(*kind, OneCall { tok, data, hint: *hint }, old);
+                if twin.starts_with("ok") && twin != fresh {
+                    return format!("oracle-split fresh=[{fresh}] twin-in-place=[{twin}]");
+                }
+                fresh
+            }
+            ExtOp::JsonInPlace => {
+                let fresh = json_de_std(*kind, data);
+                let twin = json_in_place_std(*kind, data, old);
+                if twin.starts_with("ok") && twin != fresh {
+                    return format!("oracle-split fresh=[{fresh}] twin-in-place=[{twin}]");
+                }
+                fresh
+            }
+            ExtOp::Shape => {
+                // HipByt asks for a byte string: its twin is the probe with the same hint (the
+                // value deserializers answer `deserialize_seq` and `deserialize_bytes` differently,
+                // e.g. a map is a sequence of pairs for `Vec<u8>`); whenever `Vec<u8>` and the
+                // probe both accept they must agree
+                let mut std = shape_std(*kind, arg, data);
+                if *kind == K::Byt {
+                    let p: Result<Probe, OcErr> = with_shape!(arg.as_str(), data, |d| probe(K::Byt, d));
+                    let pl = match p {
+                        Ok(p) => format!("ok {}", hex(&p.content)),
+                        Err(e) => format!("err {}", e.0.name()),
+                    };
+                    if std.starts_with("ok") && pl.starts_with("ok") && std != pl {
+                        return format!("oracle-split vec=[{std}] probe=[{pl}]");
+                    }
+                    std = pl;
+                }
+                if std.starts_with("ok") {
+                    let b = *borrowing && matches!(arg.as_str(), "borrowed_str" | "borrowed_bytes");
+                    std.push_str(&format!(" borrowed={}", b as u8));
+                }
+                std
+            }
+        },
     }
 }
 
@@ -1460,6 +2127,25 @@ fn lean_query(case: &Case) -> Option<String> {
         }
         Case::Ser { kind, data, .. } => Some(format!("ser {} {}", kind.name(), hex(data))),
         Case::Bstr { src, kind, data, .. } => Some(format!("bstr {src} {} {}", kind.name(), hex(data))),
+        // in place == fresh deserialize (theorem `in_place_default`): the model's `visit` answers
+        Case::Ext { op: ExtOp::InPlace, kind, arg, hint, data, .. } if *kind != K::Os => {
+            let h = hint.map(|h| format!(" {h}")).unwrap_or_default();
+            Some(format!("visit {}_owned {arg} {}{h}", kind.name(), hex(data)))
+        }
+        // the value deserializers that make exactly one of the modelled visitor calls
+        Case::Ext { op: ExtOp::Shape, kind, borrowing, arg, data, .. } if *kind != K::Os => {
+            let e = Entry { kind: *kind, borrowing: *borrowing }.name();
+            let (tok, extra) = match arg.as_str() {
+                "str" | "borrowed_str" | "string" | "bytes" | "borrowed_bytes" | "char" => (arg.as_str(), String::new()),
+                "cow_str" => ("string", String::new()),
+                "seq_u8" => ("seq", format!(" {}", data.len())),
+                "bool" | "i8" | "i16" | "i32" | "i64" | "i128" | "u8" | "u16" | "u32" | "u64" | "u128" | "f32" | "f64" | "unit"
+                | "map" | "map_empty" => ("other", String::new()),
+                _ => return None,
+            };
+            let payload = if matches!(tok, "other") { "-".to_string() } else { hex(data) };
+            Some(format!("visit {e} {tok} {payload}{extra}"))
+        }
         _ => None,
     }
 }
@@ -1564,14 +2250,16 @@ fn outcome_class(case: &Case, line: &str) -> String {
             let l = line.split(" value:").next().unwrap_or(line);
             if l.starts_with("slice:ok") { borrowed(l).to_string() } else { "err".into() }
         }
-        Case::Visit { .. } | Case::Bstr { .. } => {
+        Case::Visit { .. } | Case::Bstr { .. } | Case::Ext { op: ExtOp::Shape, .. } => {
             if first == "ok" {
                 borrowed(line).to_string()
             } else {
                 line.split(' ').take(2).collect::<Vec<_>>().join("-")
             }
         }
-        Case::BorshDe { .. } => line.split(' ').take(if first == "ok" { 1 } else { 2 }).collect::<Vec<_>>().join("-"),
+        Case::BorshDe { .. } | Case::Ext { .. } => {
+            line.split(' ').take(if first == "ok" { 1 } else { 2 }).collect::<Vec<_>>().join("-")
+        }
         _ => first.to_string(),
     }
 }
@@ -1586,6 +2274,9 @@ struct Ctx {
     distinct: std::collections::BTreeSet<String>,
     samples: Vec<String>,
     sampled: std::collections::BTreeSet<String>,
+    /// per (kind, case key): (shrinks done, reports made)
+    classes: BTreeMap<String, (usize, usize)>,
+    suppressed: u64,
     internal_errors: Vec<String>,
 }
 
@@ -1651,7 +2342,19 @@ impl Ctx {
             dis("monitor", "no monitor violation, no panic, no abort".into(), obs.line.clone());
         }
         // the allocation bound of the property
-        let bounded = matches!(case, Case::BorshDe { .. } | Case::Visit { .. } | Case::Bstr { .. });
+        let bounded = matches!(
+            case,
+            Case::BorshDe { .. }
+                | Case::Visit { .. }
+                | Case::Bstr { .. }
+                | Case::Ext { op: ExtOp::InPlace | ExtOp::Shape | ExtOp::BorshIoDe | ExtOp::JsonInPlace, .. }
+        );
+        let n = match case {
+            // the whole stream (two copies of the value) / the old value count as supplied input
+            Case::Ext { op: ExtOp::BorshIoDe, data, .. } => 2 * data.len() + 12,
+            Case::Ext { old, data, .. } => old.len() + data.len(),
+            _ => n,
+        };
         if bounded && obs.maxalloc != usize::MAX && obs.maxalloc > 4096 + 2 * n + SLACK {
             dis(
                 "monitor",
@@ -1668,7 +2371,10 @@ impl Ctx {
         if with_model {
             if let Some(q) = lean_query(case) {
                 if let Some(model) = self.ask_lean(&q) {
-                    let model_line = strip_field(&strip_field(&model, "maxreq="), "reserve=");
+                    let mut model_line = strip_field(&strip_field(&model, "maxreq="), "reserve=");
+                    if matches!(case, Case::Ext { op: ExtOp::InPlace, .. }) {
+                        model_line = strip_field(&model_line, "borrowed=");
+                    }
                     if model_line != obs.line {
                         out.push(Dis { kind: "impl-vs-model", input: vec![case.line()], expected: model.clone(), observed: obs.line.clone() });
                     } else if obs.maxalloc != usize::MAX {
@@ -1722,48 +2428,65 @@ impl Ctx {
     }
 
     /// Checks a case; a disagreement is shrunk (shorter payload, same kind of disagreement).
+    /// Per (kind, operation) class at most `SHRINKS_PER_CLASS` disagreements are shrunk and at
+    /// most `REPORTS_PER_CLASS` distinct ones reported, so that a badly broken implementation
+    /// cannot blow the run up.
     fn check(&mut self, case: &Case, with_model: bool, report: &mut Vec<Dis>) {
+        const SHRINKS_PER_CLASS: usize = 6;
+        const REPORTS_PER_CLASS: usize = 12;
         let found = self.check_once(case, with_model);
         if found.is_empty() {
             return;
         }
         let kind = found[0].kind;
+        let class = format!("{kind}|{}", case.key());
+        let seen = self.classes.entry(class).or_insert((0, 0));
         let mut best = case.clone();
         let mut best_dis = found;
-        let mut budget = 200;
-        let mut chunk = (best.data().len() / 2).max(1);
-        while chunk >= 1 && budget > 0 {
-            let mut pos = 0;
-            let mut progressed = false;
-            while pos < best.data().len() && budget > 0 {
-                let mut d = best.data().clone();
-                let end = (pos + chunk).min(d.len());
-                d.drain(pos..end);
-                let cand = best.with_data(d);
-                budget -= 1;
-                if cand.well_formed() {
-                    let r = self.check_once(&cand, with_model);
-                    if r.iter().any(|x| x.kind == kind) {
-                        best = cand;
-                        best_dis = r;
-                        progressed = true;
-                        continue;
+        if seen.0 < SHRINKS_PER_CLASS {
+            seen.0 += 1;
+            let mut budget = 120;
+            let mut chunk = (best.data().len() / 2).max(1);
+            while chunk >= 1 && budget > 0 {
+                let mut pos = 0;
+                let mut progressed = false;
+                while pos < best.data().len() && budget > 0 {
+                    let mut d = best.data().clone();
+                    let end = (pos + chunk).min(d.len());
+                    d.drain(pos..end);
+                    let cand = best.with_data(d);
+                    budget -= 1;
+                    if cand.well_formed() {
+                        let r = self.check_once(&cand, with_model);
+                        if r.iter().any(|x| x.kind == kind) {
+                            best = cand;
+                            best_dis = r;
+                            progressed = true;
+                            continue;
+                        }
                     }
+                    pos += chunk;
                 }
-                pos += chunk;
-            }
-            if !progressed {
-                if chunk == 1 {
-                    break;
+                if !progressed {
+                    if chunk == 1 {
+                        break;
+                    }
+                    chunk /= 2;
                 }
-                chunk /= 2;
             }
         }
-        // one report per (kind, operation, expected-shape) to keep the output readable
+        let class = format!("{kind}|{}", case.key());
         for d in best_dis {
-            if report.len() < 200 {
-                report.push(d);
+            let seen = self.classes.get_mut(&class).expect("class");
+            if seen.1 >= REPORTS_PER_CLASS {
+                self.suppressed += 1;
+                continue;
             }
+            if report.iter().any(|r| r.kind == d.kind && r.input == d.input) {
+                continue;
+            }
+            seen.1 += 1;
+            report.push(d);
         }
     }
 }
@@ -1946,8 +2669,11 @@ fn visit_cases(entry: Entry, be: Be, v: &[u8], emit: &mut dyn FnMut(Case, bool))
     }
 }
 
+static T0: std::sync::OnceLock<std::time::Instant> = std::sync::OnceLock::new();
+
 fn run_all(ctx: &mut Ctx, tier: &str, seed: u64, report: &mut Vec<Dis>) {
     let thorough = tier == "thorough";
+    let _ = T0.set(std::time::Instant::now());
     let mut rng = Rng::new(seed);
 
     // the generated table must pass every row predicate of the model
@@ -2032,6 +2758,9 @@ fn run_all(ctx: &mut Ctx, tier: &str, seed: u64, report: &mut Vec<Dis>) {
         }
     }
 
+    if std::env::var_os("SERDRIVE_TIMING").is_some() {
+        eprintln!("timing: values done, {} evaluations, {:?}", ctx.evaluations, T0.get().map(|t| t.elapsed()));
+    }
     // ---- malformed streams ----
     // length prefixes larger than the payload, up to u32::MAX, over short payloads
     let prefixes = |n: usize| -> Vec<u32> {
@@ -2129,6 +2858,142 @@ fn run_all(ctx: &mut Ctx, tier: &str, seed: u64, report: &mut Vec<Dis>) {
             }
         }
     }
+    if std::env::var_os("SERDRIVE_TIMING").is_some() {
+        eprintln!("timing: before 'borsh through advers': {} evaluations, {:?}", ctx.evaluations, T0.get().map(|t| t.elapsed()));
+    }
+    // ---- round 2: borsh through adversarial readers / writers (tuple (T, u32, T)) ----
+    for kind in [K::Byt, K::Str] {
+        for l in [0usize, 1, 5, 22, 23, 24, 4095, 4096, 4097] {
+            let mut vals: Vec<Vec<u8>> = vec![(0..l).map(|i| b'a' + (i % 26) as u8).collect()];
+            vals.push(if kind == K::Str { fill("é", l) } else { (0..l).map(|i| (i * 37 + 11) as u8).collect() });
+            vals.dedup();
+            for v in vals {
+                for be in BACKENDS {
+                    for adv in READ_ADVS {
+                        emit(ctx, report, Case::ext(ExtOp::BorshIoDe, kind, be, adv, v.clone()), false);
+                    }
+                    for adv in WRITE_ADVS {
+                        emit(ctx, report, Case::ext(ExtOp::BorshIoSer, kind, be, adv, v.clone()), false);
+                    }
+                }
+            }
+        }
+    }
+    if std::env::var_os("SERDRIVE_TIMING").is_some() {
+        eprintln!("timing: before 'deserialize_in_place': {} evaluations, {:?}", ctx.evaluations, T0.get().map(|t| t.elapsed()));
+    }
+    // ---- round 2: deserialize_in_place over a pre-filled slot ----
+    for kind in [K::Byt, K::Str, K::Path, K::Os] {
+        let news: Vec<Vec<u8>> = [0usize, 1, 3, 23, 24, 40, 4097]
+            .iter()
+            .map(|&l| if l == 3 && kind != K::Byt { "é!".as_bytes().to_vec() } else { (0..l).map(|i| b'a' + (i % 26) as u8).collect() })
+            .collect();
+        for new in &news {
+            let mut olds: Vec<Vec<u8>> = vec![vec![]];
+            let mut longer = new.clone();
+            longer.extend_from_slice(b"OLD-TAIL-17-bytes");
+            olds.push(longer);
+            olds.push(vec![b'o'; new.len() + 60]);
+            olds.push(vec![b'o'; new.len()]);
+            olds.push(new[..new.len() / 2].iter().map(|_| b's').collect());
+            olds.push(b"old".to_vec());
+            olds.sort();
+            olds.dedup();
+            for old in &olds {
+                for old_borrowed in [false, true] {
+                    for be in BACKENDS {
+                        for tok in TOKEN_KINDS {
+                            if tok.str_typed() && !is_utf8(new) {
+                                continue;
+                            }
+                            let hints: Vec<Option<usize>> =
+                                if matches!(tok, Tk::Seq | Tk::SeqBad) { vec![None, Some(new.len())] } else { vec![None] };
+                            for hint in hints {
+                                emit(
+                                    ctx,
+                                    report,
+                                    Case::Ext {
+                                        op: ExtOp::InPlace,
+                                        kind,
+                                        borrowing: false,
+                                        be,
+                                        arg: tok.name().to_string(),
+                                        hint,
+                                        old: old.clone(),
+                                        old_borrowed,
+                                        data: new.clone(),
+                                    },
+                                    new.len() <= 64,
+                                );
+                            }
+                        }
+                        // the same through serde_json (what HipByt/Vec<u8> and the string types write)
+                        if new.len() <= 64 {
+                            let mut texts: Vec<Vec<u8>> = vec![b"[]".to_vec(), b"\"\"".to_vec(), b"[1,2".to_vec()];
+                            if let Ok(js) = serde_json::to_vec(&StdVal::make(kind, new)) {
+                                texts.push(js);
+                            }
+                            for text in texts {
+                                emit(
+                                    ctx,
+                                    report,
+                                    Case::Ext {
+                                        op: ExtOp::JsonInPlace,
+                                        kind,
+                                        borrowing: false,
+                                        be,
+                                        arg: String::new(),
+                                        hint: None,
+                                        old: old.clone(),
+                                        old_borrowed,
+                                        data: text,
+                                    },
+                                    false,
+                                );
+                            }
+                        }
+                    }
+                }
+            }
+        }
+    }
+    if std::env::var_os("SERDRIVE_TIMING").is_some() {
+        eprintln!("timing: before 'every data-model sha': {} evaluations, {:?}", ctx.evaluations, T0.get().map(|t| t.elapsed()));
+    }
+    // ---- round 2: every data-model shape through serde's value deserializers ----
+    let mut shape_vals: Vec<Vec<u8>> = [0usize, 1, 23, 24, 48].iter().map(|&l| (0..l).map(|i| b'a' + (i % 26) as u8).collect()).collect();
+    shape_vals.push("é".as_bytes().to_vec());
+    shape_vals.push(fill("日", 30));
+    shape_vals.extend(bad_utf8_values().into_iter().filter(|v| v.len() <= 24));
+    for kind in [K::Byt, K::Str, K::Path, K::Os] {
+        for entry in entries_of(kind) {
+            for be in BACKENDS {
+                for shape in SHAPES {
+                    for v in &shape_vals {
+                        emit(
+                            ctx,
+                            report,
+                            Case::Ext {
+                                op: ExtOp::Shape,
+                                kind,
+                                borrowing: entry.borrowing,
+                                be,
+                                arg: shape.to_string(),
+                                hint: None,
+                                old: vec![],
+                                old_borrowed: false,
+                                data: v.clone(),
+                            },
+                            true,
+                        );
+                    }
+                }
+            }
+        }
+    }
+    if std::env::var_os("SERDRIVE_TIMING").is_some() {
+        eprintln!("timing: before 'seeded random inputs': {} evaluations, {:?}", ctx.evaluations, T0.get().map(|t| t.elapsed()));
+    }
     // ---- seeded random inputs ----
     let rounds = if thorough { 20000 } else { 1500 };
     for _ in 0..rounds {
@@ -2218,6 +3083,8 @@ fn main() {
         distinct: Default::default(),
         samples: vec![],
         sampled: Default::default(),
+        classes: BTreeMap::new(),
+        suppressed: 0,
         internal_errors: vec![],
     };
     let mut report: Vec<Dis> = vec![];
@@ -2262,6 +3129,7 @@ fn main() {
         "seed": cli.seed,
         "lean_queries": ctx.lean_queries,
         "child_cases": ctx.child_cases,
+        "suppressed_duplicate_disagreements": ctx.suppressed,
         "wall_s": start.elapsed().as_secs_f64(),
         "distribution": ctx.distribution,
         "samples": ctx.samples,
